@@ -52,6 +52,8 @@ func init() {
 		Run:         runC08,
 		Configs:     []string{"linux/amd64"},
 		Mutants: []Mutant{
+			{Name: "calls-ascends-selector-or-instantiation", File: "internal/xtools-internal/typesinternal/typeindex/typeindex.go", Rule: "R8.9", KeyPart: "Calls::selector-and-instantiation-steps-are-cumulative",
+				Old: "\t\t\t\tcur = astutil.UnparenEnclosingCursor(cur.Parent())\n\t\t\t}\n\n\t\t\t// ascend typeparams: f -> f[T]; f -> f[T1, T2]\n\t\t\tif ek := cur.ParentEdgeKind(); ek == edge.IndexExpr_X || ek == edge.IndexListExpr_X {", New: "\t\t\t\tcur = astutil.UnparenEnclosingCursor(cur.Parent())\n\t\t\t} else if ek := cur.ParentEdgeKind(); ek == edge.IndexExpr_X || ek == edge.IndexListExpr_X {"},
 			{Name: "index-covers-methods-but-not-fields-of-indirect-packages", File: "internal/xtools-internal/typesinternal/typeindex/typeindex.go", Rule: "R8.8", KeyPart: "package-of-every-used-object-is-indexed",
 				Old: "\t\t\t\tif !typesinternal.IsPackageLevel(obj) {\n", New: "\t\t\t\tif _, isFunc := obj.(*types.Func); isFunc && !typesinternal.IsPackageLevel(obj) {\n"},
 			{Name: "prefilter-requires-use-of-symbol", File: "analysis/code/visit.go", Rule: "R8.7", KeyPart: "filters-on-use",
@@ -840,6 +842,84 @@ func runC08(c *Ctx) {
 			}
 		}
 		c.Check(tiPkg+".New::imports-indexed", newFn.Pos(), imp, "every import declaration (including blank and dot imports) adds the imported package to the table")
+	})
+
+	// R8.9: Index.Calls climbs from a use of the callee's name to the call:
+	// f → (f) → x.f → f[T] → call. The steps are independent and cumulative: a
+	// callee can be both qualified and explicitly instantiated
+	// (slices.Index[[]int](xs, 3)), so after the selector step the
+	// instantiation step must still be possible. If the two are alternatives of
+	// one switch, such calls are never enumerated and patterns rooted in the
+	// call lose matches.
+	c.Rule("R8.9", func() {
+		c.Floor("R8.9", 1)
+		var callsFn *ssa.Function
+		idx := c.NamedType("internal/xtools-internal/typesinternal/typeindex", "Index")
+		for m := range idx.Methods() {
+			if m.Name() == "Calls" {
+				callsFn = c.Prog.FuncValue(m)
+			}
+		}
+		if callsFn == nil {
+			c.Undecided("anchor-missing typeindex.(*Index).Calls")
+		}
+		edgePkg := c.Pkgs["golang.org/x/tools/go/ast/edge"]
+		if edgePkg == nil {
+			c.Undecided("package golang.org/x/tools/go/ast/edge not loaded")
+		}
+		kind := func(name string) int64 {
+			k, _ := edgePkg.Types.Scope().Lookup(name).(*types.Const)
+			if k == nil {
+				c.Undecided("edge.%s not found", name)
+			}
+			v, _ := constant.Int64Val(k.Val())
+			return v
+		}
+		sel, ix, ixl := kind("SelectorExpr_Sel"), kind("IndexExpr_X"), kind("IndexListExpr_X")
+		found := false
+		for _, f := range DeepFuncs(callsFn, 3) {
+			if FuncPkgPath(f) != FuncPkgPath(callsFn) {
+				continue
+			}
+			isKindTest := func(vals ...int64) map[Edge]bool {
+				return EqEdges(f, func(x, y ssa.Value) bool {
+					k, ok := ConstInt(y)
+					if !ok {
+						return false
+					}
+					call, isCall := x.(*ssa.Call)
+					if !isCall || !strings.HasSuffix(CalleeName(&call.Call), "Cursor.ParentEdgeKind") {
+						return false
+					}
+					for _, v := range vals {
+						if v == k {
+							return true
+						}
+					}
+					return false
+				})
+			}
+			selEdges, idxEdges := isKindTest(sel), isKindTest(ix, ixl)
+			if len(selEdges) == 0 || len(idxEdges) == 0 {
+				continue
+			}
+			found = true
+			// after a selector step, an instantiation step is still reachable
+			cumulative := false
+			for se := range selEdges {
+				start := f.Blocks[se.Block].Succs[se.Succ].Instrs[0]
+				for ie := range idxEdges {
+					target := f.Blocks[ie.Block].Succs[ie.Succ].Instrs[0]
+					if start == target || ReachesFrom(f, start, target) {
+						cumulative = true
+					}
+				}
+			}
+			c.Check(FuncKey(callsFn)+"::selector-and-instantiation-steps-are-cumulative", f.Pos(), cumulative, "after ascending from f to x.f, Calls must still ascend from x.f to x.f[T]: a qualified, explicitly instantiated callee needs both steps; as alternatives of one switch they exclude each other and such calls are never enumerated")
+		}
+		if !found {
+			c.Undecided("Index.Calls no longer tests ParentEdgeKind for the selector and the instantiation step")
+		}
 	})
 }
 
